@@ -73,6 +73,17 @@ CLAIMED = {
         note=NOTE),
 }
 
+CLAIMED['C05'] = dict(
+    technique='Coq proof over a Gallina model of _find_extrema / np.pad odd reflection / the re-padding loop / the envelope sample grid + exhaustive differential correspondence (every sequence up to length 7/9 over 3 levels x pad widths 0..5 x 3 modes)',
+    text='Theorems (Prop_C05.v) prove for every integer signal that detected peaks/troughs are exactly the strict interior local maxima/minima in temporal '
+         'order with the signal\'s own magnitudes, that fewer than two extrema give no envelope, that the re-padding loop terminates, that padding only '
+         'adds mirrored (odd-reflected) extrema beyond both ends leaving the interior ones unaltered, strictly ordered in time and covering both edges '
+         'for pad width >= 1, hence that the envelope is evaluated at exactly the integer sample times 0..N-1, also for refined (rational) extrema '
+         'locations with the repaired grid; the parabolic vertex stays within half a sample of its peak. The interpolants (FITPACK splrep/splev, PCHIP) '
+         'are oracles: that the envelope equals the interpolant through the returned extrema at the sample times, and passes through unrefined '
+         'extrema, is checked by the oracle on real signals x 3 methods x 3 modes x parabolic on/off (tolerance 1e-9), not proved.',
+    note=NOTE + ' np.pad and argrelextrema are modelled concretely and validated exhaustively; spline/PCHIP evaluation is an oracle.')
+
 _PENDING = 'check under construction in this session (model/theorem/correspondence not all in place yet); not claimed until they are'
 NOT_CLAIMED = {('C%02d' % i): _PENDING for i in range(1, 21)}
 for _p in CLAIMED:
